@@ -19,19 +19,24 @@ MANIFEST = {
             "lists; 825 strings) plus operator-like literals: every string-keyword alias (11) x 12 words spelled like operator "
             "words in upper/mixed case (NE Ne OR AND NOT TO EQ LT LE GT GE Or; NE/Ne are real atom, residue and element names "
             "of the fixture) alone, with == != eq ne, reversed, bare and quoted, and as first / middle / last element of "
-            "implicit lists (2640 strings). Depth 2: every tree leaf | not leaf | leaf conn leaf over 21 representative leaves "
+            "implicit lists (2244 strings), and quoted literals that contain the other quote character (primed atom names "
+            "\"O5'\", \"H5''\", 'H5\"', with unprimed decoys O5 C3 H5 in the fixture) alone, with == != eq ne in both orders, in "
+            "implicit lists, as =~ patterns (252 strings). Depth 2: every tree leaf | not leaf | leaf conn leaf over 21 representative leaves "
             "x {and,&&,or,||} x {not,!}, rendered flat / minimally / fully parenthesised / every leaf parenthesised (1827 trees, "
-            "~3.6k strings); the operator-like literals under every connective (1296 trees). Depth 3, quick: the three-leaf "
+            "~3.6k strings); the operator-like literals (1296 trees) and the quote-containing literals (520 trees) under every connective. Depth 3, quick: the three-leaf "
             "slice over 3 leaves in all 16 connective spellings (864 trees); thorough: every tree of depth <= 3 over 4 leaves "
             "plus the slice over 5 leaves (25k trees, ~58k strings). Plus parenthesis nesting 1..5, 25 whitespace variants, ~100 "
-            "malformed strings. History layer: every edit sequence of length 1..2 (90, all ordered pairs) over 9 edits "
+            "malformed strings. History layer: every edit sequence of length 1..2 (156, all ordered pairs) over 12 edits "
             "{insert_atom at the front / inside a bonded water, delete_atom_by_index of a bonded water / side-chain atom, "
-            "add_bond, rename atom, rename residue (2), add_residue+add_atom+add_bond at the end} applied to ONE Topology "
-            "object x 28 expressions touching every keyword, evaluated before the edits (fills caches), after every edit, and "
-            "on a from-scratch copy of the edited topology (~6.8k cases). Topology: 50 atoms, three protein chains/segments, "
+            "add_bond, rename atom, rename residue (2), add_residue+add_atom+add_bond at the end, and three edits after which "
+            "the traversal order is not the index order: add_atom to the first / a middle residue, insert_atom(index=2) into "
+            "a water} applied to ONE Topology object x 28 expressions touching every keyword, evaluated before the edits "
+            "(fills caches), after every edit, and at the end also through eval(select_expression) and on a from-scratch, "
+            "index-preserving copy of the edited topology (~12.6k cases). Topology: 58 atoms, protein chains/segments, "
             "water, ions, repeated names and residue numbers. Oracles: select(e) == reference and strictly increasing; all "
             "spelling/parenthesisation variants of one abstract expression agree; eval(select_expression(e)) == select(e); "
-            "malformed strings raise; edited object == reference on the re-walked atom table == from-scratch copy. Right "
+            "malformed strings raise; edited object == reference on the re-walked atom table (index = atom.index) == "
+            "eval(select_expression) == from-scratch copy. Right "
             "level: the property quantifies over programs of a compositional language (and over the topologies they run on); "
             "mis-parses and stale derived attributes appear only in particular combinations, which enumeration reaches.",
     "note": "Trusted base: the hand-written atom table and reference parser (self-checked: direct tree evaluation == "
@@ -45,7 +50,10 @@ MANIFEST = {
             "(trusted attribute reads) with name-based truth tables that reproduce the hand-written table exactly on the "
             "unedited fixture (asserted); delete_atom_by_index leaves the deleted atom's bonds in top.bonds and the "
             "documentation does not say whether they count for n_bonds, so atoms whose truth value depends on that are "
-            "excluded per expression and counted; edits keep the atom order consistent with the residue order. "
+            "excluded per expression and counted; for topologies whose traversal order is not the index order the result is "
+            "compared as a set (and as a list with eval(select_expression)) and its order only recorded, since the property's "
+            "topologies do not include them; within one history every expression is parsed once and the parse reused by all "
+            "stages (the layer targets state of the Topology, the parser is stateless). "
             "Each evaluation runs in a fresh thread so that the Python recursion depth available to the parser is the same "
             "as in a top-level script. For depth >= 2 programs select() and select_expression() share one parse result "
             "(the parse costs ~0.1 s CPU); depth-1 and all other strings are parsed by each method separately.",
@@ -100,9 +108,14 @@ class _SharedParse:
         self.orig = T.parse_selection
         self.last = None
         self.on = False
+        self.memo = None
         T.parse_selection = self
 
     def __call__(self, s):
+        if self.memo is not None:                 # history layer: one parse per expression and history
+            if s not in self.memo:
+                self.memo[s] = self.orig(s)
+            return self.memo[s]
         if not self.on:
             return self.orig(s)
         if self.last is None or self.last[0] != s:
@@ -223,17 +236,23 @@ def _hist_worker(hist):
     from vlib.refmodels import selection_ref as R, selection_hist as H
     top = R.build_topology()
     out = {"hist": hist, "viol": [], "selects": 0, "cases": 0, "nontrivial": 0, "excluded_atoms": 0,
-           "applicable": True, "copies": 0}
+           "applicable": True, "copies": 0, "source_evals": 0, "unordered_results": 0, "order_broken": False}
     trees = {e: R.parse(e) for e in H.EXPRS}
+    _SHARE.memo = {}       # the layer is about state of the Topology, not of the (stateless) parser:
+    #                        every expression is parsed once per history and the parse reused by all stages
 
-    def evaluate(stage, last, with_copy):
+    def evaluate(stage, last, final, broken):
         live, alt, stale, _lb = R.table_from_topology(top)
         rep = {"kind": "history", "edits": list(hist), "stage": stage}
-        if stale:
+        if stale and not broken:
             out["viol"].append(("history|%s|atom.index-stale" % last,
                                 "after %s: atoms (position, .index, name) %s" % (list(hist[:stage]), stale[:5]),
-                                dict(rep, expr="all")))
-        copy = R.build_copy(top) if with_copy else None
+                                dict(rep, expr=H.EXPRS[0])))
+        idx = sorted(a["index"] for a in live)
+        if idx != list(range(len(live))):
+            out["viol"].append(("history|%s|atom.index-not-a-permutation" % last,
+                                "after %s the .index values are %s" % (list(hist[:stage]), idx[:60]), dict(rep, expr=H.EXPRS[0])))
+        copy = R.build_copy(top) if final else None
         if copy is not None:
             out["copies"] += 1
         for e in H.EXPRS:
@@ -252,11 +271,24 @@ def _hist_worker(hist):
                 continue
             g = got[1]
             if any(y <= x for x, y in zip(g, g[1:])):
-                out["viol"].append((sig + "not-increasing", "%s returned %s" % (where, list(g)), dict(rep, expr=e)))
+                if broken:
+                    out["unordered_results"] += 1          # recorded, not judged
+                else:
+                    out["viol"].append((sig + "not-increasing", "%s returned %s" % (where, list(g)), dict(rep, expr=e)))
             if set(g) - dc != a - dc or len(set(g)) != len(g):
                 out["viol"].append((sig + "vs-reference:wrong-set", "%s: expected %s, got %s" % (where, sorted(a), list(g)),
                                     dict(rep, expr=e)))
-            if copy is not None:
+            if final:
+                try:
+                    src = top.select_expression(e)
+                    lst = tuple(int(v) for v in eval(src, {"topology": top, "re": re}))
+                except Exception as ex:                    # noqa: BLE001
+                    src, lst = "?", ("exc", type(ex).__name__)
+                out["source_evals"] += 1
+                if lst != g:
+                    out["viol"].append((sig + "vs-source-eval:differs",
+                                        "%s = %s but eval(select_expression) = %s (%s)" % (where, list(g), list(lst), src),
+                                        dict(rep, expr=e)))
                 c = _run_select(e, copy)
                 out["selects"] += 1
                 if c[0] != "ok" or set(c[1]) - dc != set(g) - dc:
@@ -264,13 +296,19 @@ def _hist_worker(hist):
                                         "%s = %s on the edited object, but %s on a from-scratch copy of the edited topology" % (
                                             where, list(g), list(c[1]) if c[0] == "ok" else c[1:]), dict(rep, expr=e)))
 
-    evaluate(0, "before", False)
-    for i, e in enumerate(hist):
-        if not H.apply_edit(top, e):
-            out["applicable"] = False
-            return out
-        evaluate(i + 1, e[0], i + 1 == len(hist))
-    return out
+    try:
+        evaluate(0, "before", False, False)
+        broken = False
+        for i, e in enumerate(hist):
+            if not H.apply_edit(top, e):
+                out["applicable"] = False
+                return out
+            broken = broken or e[0] in H.ORDER_BREAKING
+            evaluate(i + 1, e[0], i + 1 == len(hist), broken)
+        out["order_broken"] = broken
+        return out
+    finally:
+        _SHARE.memo = None
 
 
 def _history_layer(ctx, R):
@@ -284,6 +322,8 @@ def _history_layer(ctx, R):
     cov = {"histories": len(hs), "histories_applicable": 0, "history_selects": 0, "history_cases": 0,
            "history_cases_nontrivial": 0, "history_from_scratch_copies": 0,
            "history_atoms_excluded_(truth_depends_on_bond_to_deleted_atom)": 0,
+           "history_source_evals": 0, "histories_with_traversal_order_not_index_order": 0,
+           "history_results_not_increasing_on_such_topologies_(recorded)": 0,
            "history_edits": [list(e) for e in H.EDITS], "history_expressions": list(H.EXPRS)}
     for r in res:
         cov["histories_applicable"] += r["applicable"]
@@ -291,6 +331,9 @@ def _history_layer(ctx, R):
         cov["history_cases"] += r["cases"]
         cov["history_cases_nontrivial"] += r["nontrivial"]
         cov["history_from_scratch_copies"] += r["copies"]
+        cov["history_source_evals"] += r["source_evals"]
+        cov["histories_with_traversal_order_not_index_order"] += r["order_broken"]
+        cov["history_results_not_increasing_on_such_topologies_(recorded)"] += r["unordered_results"]
         cov["history_atoms_excluded_(truth_depends_on_bond_to_deleted_atom)"] += r["excluded_atoms"]
         ctx.report(r["viol"])
     return cov
@@ -334,6 +377,11 @@ def _fixture_checks(ctx, R, G):
             if any((re.match(rx, v) is None) != (re.fullmatch(rx, v) is None) for v in vals) or \
                any((re.match(rx, v) is None) != (re.search(rx, v) is None) for v in vals):
                 amb.append((c, rx))
+    vals = set(a["name"] for a in _ATOMS)
+    for rx in G.PRIMED_REGEX:
+        if any((re.match(rx, v) is None) != (re.fullmatch(rx, v) is None) for v in vals) or \
+           any((re.match(rx, v) is None) != (re.search(rx, v) is None) for v in vals):
+            amb.append(("name", rx))
     info["regex_patterns_with_anchoring_dependent_meaning"] = amb
     assert not amb, amb
     return info
@@ -356,8 +404,9 @@ def _space(ctx, R, G):
             groups.setdefault(key, []).append(s)
 
     d1 = G.depth1()
-    for s, key, _klass in d1:
-        add(s, "program", ("d1", key))
+    for s, key, klass in d1:
+        # the operator-like / quote-inside literal families share the parse between select and select_expression
+        add(s, "program-shared" if klass.startswith(("oplike", "primed")) else "program", ("d1", key))
     stats["depth1_strings"] = len(items)
     stats["depth1_abstract_conditions"] = len({k for _s, k, _c in d1})
     klasses = {}
@@ -414,6 +463,16 @@ def _space(ctx, R, G):
     stats["operator_like_literal_trees"] = len(to)
     stats["operator_like_literal_depth2_strings"] = len(items) - n0
     stats["operator_like_words"] = list(G.OPLIKE_WORDS)
+
+    tp = G.primed_trees(ctx.seed)
+    pp = G.programs(tp, ("min", "leafparen"))
+    selfcheck(tp, pp, "primed")
+    n0 = len(items)
+    for s, k, _pres in pp:
+        add(s, "program-shared", ("pr", k) if k is not None else None)
+    stats["quote_inside_literal_trees"] = len(tp)
+    stats["quote_inside_literal_depth2_strings"] = len(items) - n0
+    stats["quote_inside_literals"] = list(G.PRIMED)
 
     if ctx.quick:
         lv3 = G.leaves(G.reps("3q", ctx.seed))
@@ -531,7 +590,7 @@ def run(ctx):
         "rule": "every program of the grammar described in vlib/refmodels/selection_gen.py (depth 1 in every spelling, depth 2 "
                 "over 21 representative leaves, depth 3 %s, all connective spellings and parenthesisations) plus "
                 "nesting, whitespace and malformed strings; each distinct string is executed once; non-trivial = the reference "
-                "selects neither no atom nor all %d atoms; history layer: every edit sequence of length 1..2 over the 9 edits of "
+                "selects neither no atom nor all %d atoms; history layer: every edit sequence of length 1..2 over the 12 edits of "
                 "selection_hist.py x its 28 expressions, evaluated on one object before / after every edit and on a from-scratch "
                 "copy, a case = (history, stage, expression), non-trivial by the same rule" % (
                     "three-leaf slice over 3 leaves" if ctx.quick else "complete over 4 leaves + three-leaf slice over 5 leaves",
